@@ -415,3 +415,129 @@ B('C20', 'stop does not join', (RU, "        self._stop.set()\n        self._unp
 B('C20', 'restart of a stopped runner allowed', (RU, "        if self._stop.is_set():\n            raise RuntimeError('Cannot restart a stopped runner.')\n        elif self._thread.is_alive():", "        if self._thread.is_alive():"))
 B('C20', 'execute_all by default', (RU, "interval: float = 0.1, execute_all=False) -> None:", "interval: float = 0.1, execute_all=True) -> None:"))
 T('C20', 'while with is not None', (RU, "        while step:\n            steps.append(step)", "        while step is not None:\n            steps.append(step)"))
+
+# ---------------------------------------------------------------- extract-method twins (served by sa/inline.py), checked against every property that anchors on the method
+_EXIT_BODY_OLD = """        for state in exited_states:
+            # Execute exit action
+            sent_events.extend(self._evaluator.execute_on_exit(state))
+
+            # Deal with history
+            if isinstance(state, CompoundState):
+                # Look for an HistoryStateMixin among its children
+                for child_name in self._statechart.children_for(state.name):
+                    child = self._statechart.state_for(child_name)
+                    if isinstance(child, DeepHistoryState):
+                        # This MUST contain at least one element!
+                        active = active_configuration.intersection(
+                            self._statechart.descendants_for(state.name))
+                        assert len(active) >= 1
+                        self._memory[child.name] = list(active)
+                    elif isinstance(child, ShallowHistoryState):
+                        # This MUST contain exactly one element!
+                        active = active_configuration.intersection(
+                            self.statechart.children_for(state.name))
+                        assert len(active) == 1
+                        self._memory[child.name] = list(active)
+
+            # Remove state from active configuration
+            self._configuration.remove(state.name)
+
+            # Postconditions
+            self._evaluate_contract_conditions(state, 'postconditions', step)
+
+            # Notify properties
+            self._raise_event(MetaEvent('state exited', state=state.name))
+"""
+_EXIT_BODY_NEW = """        for state in exited_states:
+            self._exit_state(state, step, active_configuration, sent_events)
+"""
+_EXIT_HELPER = """    def _exit_state(self, state, step, active_configuration, sent_events):
+        sent_events.extend(self._evaluator.execute_on_exit(state))
+        if isinstance(state, CompoundState):
+            for child_name in self._statechart.children_for(state.name):
+                child = self._statechart.state_for(child_name)
+                if isinstance(child, DeepHistoryState):
+                    active = active_configuration.intersection(
+                        self._statechart.descendants_for(state.name))
+                    assert len(active) >= 1
+                    self._memory[child.name] = list(active)
+                elif isinstance(child, ShallowHistoryState):
+                    active = active_configuration.intersection(
+                        self.statechart.children_for(state.name))
+                    assert len(active) == 1
+                    self._memory[child.name] = list(active)
+        self._configuration.remove(state.name)
+        self._evaluate_contract_conditions(state, 'postconditions', step)
+        self._raise_event(MetaEvent('state exited', state=state.name))
+
+    def _stabilize(self) -> List[MicroStep]:"""
+_ENTER_OLD = """        for state in entered_states:
+            # Preconditions
+            self._evaluate_contract_conditions(state, 'preconditions', step)
+
+            # Execute entry action
+            sent_events.extend(self._evaluator.execute_on_entry(state))
+
+            # Update configuration
+            self._configuration.add(state.name)
+            self._entry_time[state.name] = self.time
+            self._idle_time[state.name] = self.time
+
+            # Notify properties
+            self._raise_event(MetaEvent('state entered', state=state.name))
+"""
+_ENTER_NEW = """        for state in entered_states:
+            self._enter_state(state, step, sent_events)
+"""
+_ENTER_HELPER = """    def _enter_state(self, state, step, sent_events):
+        self._evaluate_contract_conditions(state, 'preconditions', step)
+        sent_events.extend(self._evaluator.execute_on_entry(state))
+        self._configuration.add(state.name)
+        self._entry_time[state.name] = self.time
+        self._idle_time[state.name] = self.time
+        self._raise_event(MetaEvent('state entered', state=state.name))
+
+    def _stabilize(self) -> List[MicroStep]:"""
+_INV_OLD = """        # Check state invariants
+        configuration = self.configuration  # Use self.configuration to benefit from the sorting
+        for name in configuration:
+            state = self._statechart.state_for(name)
+            self._evaluate_contract_conditions(state, 'invariants', macro_step)
+"""
+_INV_NEW = """        self._check_state_invariants(macro_step)
+"""
+_INV_HELPER = """    def _check_state_invariants(self, macro_step):
+        configuration = self.configuration
+        for name in configuration:
+            state = self._statechart.state_for(name)
+            self._evaluate_contract_conditions(state, 'invariants', macro_step)
+
+    def _stabilize(self) -> List[MicroStep]:"""
+_ALLP = ['C01', 'C02', 'C03', 'C04', 'C05', 'C06', 'C07', 'C08', 'C09', 'C10', 'C13', 'C15', 'C18', 'C20']
+for _p in _ALLP:
+    T(_p, 'extract _exit_state helper', (D, _EXIT_BODY_OLD, _EXIT_BODY_NEW), (D, "    def _stabilize(self) -> List[MicroStep]:", _EXIT_HELPER))
+    T(_p, 'extract _enter_state helper', (D, _ENTER_OLD, _ENTER_NEW), (D, "    def _stabilize(self) -> List[MicroStep]:", _ENTER_HELPER))
+    T(_p, 'extract _check_state_invariants helper', (D, _INV_OLD, _INV_NEW), (D, "    def _stabilize(self) -> List[MicroStep]:", _INV_HELPER))
+_CHK_OLD = """        # Check state has a name
+        if state.name is None:
+            raise StatechartError('State {} must have a name'.format(state))
+
+        # Check name unicity
+        if state.name in self._states.keys():
+            raise StatechartError('State {} already exists!'.format(state))
+"""
+_CHK_NEW = """        self._check_new_name(state)
+"""
+_CHK_HELPER = """    def _check_new_name(self, state):
+        if state.name is None:
+            raise StatechartError('State {} must have a name'.format(state))
+        if state.name in self._states.keys():
+            raise StatechartError('State {} already exists!'.format(state))
+
+    def remove_state(self, name: str) -> None:"""
+for _p in ('C12', 'C16', 'C17', 'C11'):
+    T(_p, 'extract _check_new_name helper', (SC, _CHK_OLD, _CHK_NEW), (SC, "    def remove_state(self, name: str) -> None:", _CHK_HELPER))
+# an extracted helper with a defect inside must still be reported
+B('C03', 'extracted _exit_state removes before running the exit code', (D, _EXIT_BODY_OLD, _EXIT_BODY_NEW),
+  (D, "    def _stabilize(self) -> List[MicroStep]:", _EXIT_HELPER.replace("        sent_events.extend(self._evaluator.execute_on_exit(state))\n        if isinstance(state, CompoundState):", "        self._configuration.discard(state.name)\n        sent_events.extend(self._evaluator.execute_on_exit(state))\n        if isinstance(state, CompoundState):")))
+B('C10', 'extracted _enter_state forgets the emission', (D, _ENTER_OLD, _ENTER_NEW), (D, "    def _stabilize(self) -> List[MicroStep]:", _ENTER_HELPER.replace("        self._raise_event(MetaEvent('state entered', state=state.name))\n", "")))
